@@ -12,7 +12,7 @@ def pOp : P (StoreOp FVec) := do
   | "C" => pure .close
   | _ => failure
 
-def hasNaN (c : FVec) : Bool := (c.sum).isNaN
+def hasNaN (c : FVec) : Bool := c.a.any Float.isNaN   -- an entry is NaN (not: the sum is NaN — +inf and -inf sum to NaN)
 
 /-- `store <nclock> clock… <nops> ops…` → after every op the write index; at the end the columns on disk -/
 def store : P String := do
